@@ -2,4 +2,5 @@ import HapModel.Real.Std
 import HapModel.Real.R2Bound
 import HapModel.Real.Cubic
 import HapModel.Real.LdReal
+import HapModel.Real.FloatRound
 import HapModel.Real.PropsReal
